@@ -24,6 +24,7 @@ type lemmaJob struct {
 func lemmaJobs(w *World, pc *PropConfig, workDir string) ([]lemmaJob, []string) {
 	var out []lemmaJob
 	var errs []string
+	var proved []*LemmaDef // lemmas checked earlier in this run (same package) serve as hypotheses for later ones
 	for _, lm := range w.lemmas {
 		match := false
 		for _, pat := range pc.Lemmas {
@@ -56,12 +57,22 @@ func lemmaJobs(w *World, pc *PropConfig, workDir string) ([]lemmaJob, []string) 
 			}
 			cons = append(cons, t.S)
 		}
+		for _, pl := range proved {
+			if pl.Pkg != lm.Pkg {
+				continue
+			}
+			envp := &SpecEnv{h: h, w: w, pkg: pkg, vars: map[string]SV{}, st: st, old: st, qn: &qn}
+			if pt, err := envp.trBool(pl.E); err == nil {
+				cons = append(cons, pt.S)
+			}
+		}
 		env := &SpecEnv{h: h, w: w, pkg: pkg, vars: map[string]SV{}, st: st, old: st, qn: &qn}
 		t, err := env.trBool(lm.E)
 		if err != nil {
 			errs = append(errs, fmt.Sprintf("lemma %s (%s:%d): %v", lm.Name, lm.File, lm.Line, err))
 			continue
 		}
+		proved = append(proved, lm)
 		o := &Obligation{Name: "props." + pc.ID + "#lemma[" + lm.Name + "]", Func: "lemma " + lm.Name, Kind: "lemma", At: TTrue, Goal: t, Clause: lm.Text, Pos: fmt.Sprintf("%s:%d", lm.File, lm.Line)}
 		file := filepath.Join(workDir, sanitize(o.Name)+".smt2")
 		var b strings.Builder
@@ -160,6 +171,11 @@ func report(w *World, pc *PropConfig, tier string, seed int, record, partial boo
 			nObl++
 			nDis++
 			bySolver[r.Solver]++
+			continue
+		}
+		if r.Status == "error" {
+			// every back end rejected the query: an engine problem, not a verdict about the code
+			translErrs = append(translErrs, fmt.Sprintf("solver error on %s: %s", r.Name, first(strings.Split(r.Output, "\n"), 1)))
 			continue
 		}
 		if kf := isKnown(r.Name); kf != nil {
